@@ -336,6 +336,7 @@ ADAPTORS = {
     "std::result::Result::<T, E>::unwrap_or_else": "res_unwrap_or_else",
 }
 ITER_MAP = "std::iter::Iterator::map"
+CLOSURE_CALLS = ("std::ops::Fn::call", "std::ops::FnMut::call_mut", "std::ops::FnOnce::call_once")
 
 
 def _mv(l):
@@ -513,6 +514,8 @@ class Desugar:
             if blk["cleanup"] or t["k"] != "call" or blk.get("no_desugar") or t.get("target") is None or t["dest"]["p"]:
                 continue
             kind = ADAPTORS.get(t.get("callee"))
+            if kind is None and t.get("callee") in CLOSURE_CALLS and t.get("resolved_local"):
+                kind = "closure_call"
             if kind is None:
                 continue
             n_loc, n_blk = len(body["locals"]), len(body["blocks"])
@@ -540,6 +543,42 @@ class Desugar:
         if c[0] == "closure":
             marks.append(c[3])
         return c
+
+    # ------------------------------------------------------------------ direct closure calls
+    def d_closure_call(self, body, blk, t, marks):
+        """`(|| ..)()` / `let f = |x| ..; f(a)`: the closure body runs in place of the call"""
+        def single_def(l):
+            d = None
+            n = 0
+            for b_ in body["blocks"]:
+                if b_["cleanup"]:
+                    continue
+                for si, st in enumerate(b_["stmts"]):
+                    if st["k"] == "assign" and st["place"]["l"] == l and not st["place"]["p"]:
+                        d = st
+                        n += 1
+                if b_["term"]["k"] == "call" and b_["term"]["dest"]["l"] == l:
+                    n += 1
+            return d if n == 1 else None
+        l = _plain(t["args"][0])
+        d = single_def(l) if l is not None else None
+        op = t["args"][0]
+        if d is not None and d["rv"]["k"] == "ref" and not d["rv"]["place"]["p"]:
+            op = _mv(d["rv"]["place"]["l"])
+        f = self.need_callable(body, op, marks)
+        if f[0] != "closure" or f[1] != t.get("resolved"):
+            raise _Skip("closure value not resolvable")
+        # untuple the arguments
+        al = _plain(t["args"][1]) if len(t["args"]) > 1 else None
+        ad = single_def(al) if al is not None else None
+        if ad is None or ad["rv"]["k"] != "agg" or ad["rv"]["kind"] != "tuple":
+            raise _Skip("argument tuple not resolvable")
+        span, chain = t["span"], blk.get("inl", ())
+        entry = self.emit_callable(body, f, list(ad["rv"]["ops"]), t["dest"]["l"], t["target"], span, chain)
+        blk["term"] = dict(self.goto(entry, span), desugared=t.get("callee"))
+        # a named closure may be called several times: its construction stays "unconsumed" unless
+        # this was the only use — decided by the construction count in run()
+        marks[:] = [m for m in marks]
 
     # ------------------------------------------------------------------ Option / Result
     def _two_way(self, body, blk, t, enum, on0, on1):
